@@ -33,7 +33,7 @@ KINDS = ["acm", "scm", "apush", "spush", "cb"]
 KINDS_EXTRA = KINDS + ["dualcm", "dualpush"]
 BEHS = ["falsy", "truthy", "raise", "raise_if_exc"]
 # sampled in addition to the enumerated behaviours: exits that raise a BaseException which is not an Exception
-BEHS_EXTRA = BEHS + ["raise_base", "raise_base_if_exc"]
+BEHS_EXTRA = BEHS + ["raise_base", "raise_base_if_exc", "reraise_same", "reraise_same"]
 FALSY = [None, False, 0, ""]
 TRUTHY = [True, 1, "y"]
 N_HIST = {"quick": 30000, "thorough": 1000000}
@@ -113,6 +113,11 @@ def mk_entry(kind, beh, i, log, susp, choice):
         if beh == "raise_if_exc":
             if ev is not None:
                 raise E(f"h{i}")
+            return None
+        if beh == "reraise_same":
+            # hand the very exception that is in flight back (what `raise` in an except clause does)
+            if ev is not None:
+                raise ev
             return None
         if beh == "raise_base":
             raise EB(f"b{i}")
